@@ -241,6 +241,10 @@ class Interp:
             if c[1] not in self.tasks:
                 raise NotImplementedError('unbound task name (scenario error)')
             return self.tasks[c[1]].done
+        if h == 'ref':
+            if c[1] not in getattr(self, 'named_conds', {}):
+                raise NotImplementedError('unbound condition name (scenario error)')
+            return self.named_conds[c[1]]
         if h == 'all':
             return All(*[self.cond(x) for x in c[1:]])
         if h == 'any':
@@ -379,6 +383,9 @@ class Interp:
                 self.emit(label, 'unbound')
             else:
                 self.emit(label, 'status', [1000 + self.task_index[id(t)], t.status.value])
+        elif h == 'defcond':
+            self.named_conds = getattr(self, 'named_conds', {})
+            self.named_conds[s[1]] = self.cond(s[2])
         elif h == 'raise':
             e = self.classes[s[1]]()
             e.verif_label = self.user_raises
